@@ -19,6 +19,17 @@ def sh(cmd, cwd=None, env=None, timeout=3600):
     r = subprocess.run(cmd, cwd=cwd, env=e, stdout=subprocess.PIPE, stderr=subprocess.STDOUT, text=True, timeout=timeout)
     return r.returncode, r.stdout
 
+# the build output of the repository's own tests is shared between the seeds of one stream
+SHARED = os.environ.get("SEED_TARGET")
+
+def cargo_env():
+    return {"CARGO_TARGET_DIR": SHARED} if SHARED else {}
+
+def nextest_summary(out):
+    m = re.search(r"Summary \[[^\]]*\]\s+(\d+) tests? run: (\d+) passed(?:, (\d+) failed)?", out)
+    if not m: return 0, -1
+    return int(m.group(2)), int(m.group(3) or 0)
+
 def test_summary(out):
     passed = sum(int(m.group(1)) for m in re.finditer(r"test result: \w+\. (\d+) passed", out))
     failed = sum(int(m.group(1)) for m in re.finditer(r"test result: \w+\. \d+ passed; (\d+) failed", out))
@@ -47,7 +58,7 @@ def main():
         if not skip:
             if os.path.exists(demo):
                 shutil.copy(demo, os.path.join(wt, "tests", "seed_demo.rs"))
-                rc, out = sh(["cargo", "test", "--offline", "--test", "seed_demo"], cwd=wt)
+                rc, out = sh(["cargo", "test", "--offline", "--test", "seed_demo"], cwd=wt, env=cargo_env())
                 res["demo_on_unchanged_tree"] = "pass" if rc == 0 else "FAIL"
                 if rc != 0: res["demo_on_unchanged_output"] = out[-1500:]
         rc, out = sh(["git", "apply", patch], cwd=wt)
@@ -56,19 +67,19 @@ def main():
             print(json.dumps(res, indent=1)); return 2
         if not skip:
             if os.path.exists(os.path.join(wt, "tests", "seed_demo.rs")): os.remove(os.path.join(wt, "tests", "seed_demo.rs"))
-            rc, out = sh(["cargo", "test", "--offline", "--no-fail-fast"], cwd=wt)
-            p, f = test_summary(out)
+            # the pinned suite the way the baseline runs it: nextest, one process per test (the
+            # repository's unit tests share global state and are flaky when run as threads of one process)
+            rc, out = sh(["cargo", "nextest", "run", "--workspace", "--no-fail-fast", "--offline", "--test-threads", "8"], cwd=wt, env=cargo_env())
+            p, f = nextest_summary(out)
             attempts = 1
-            # the repository's unit tests share global state and are flaky when run in parallel on a
-            # loaded machine (also on the unchanged tree): a failure counts only if it persists single-threaded
-            while f > 0 and attempts < 3:
-                rc, out = sh(["cargo", "test", "--offline", "--no-fail-fast", "--", "--test-threads=1"], cwd=wt)
-                p, f = test_summary(out); attempts += 1
-            res["existing_suite_with_patch"] = {"rc": rc, "passed": p, "failed": f, "attempts": attempts}
+            while f != 0 and attempts < 3:
+                rc, out = sh(["cargo", "nextest", "run", "--workspace", "--no-fail-fast", "--offline", "--test-threads", "2"], cwd=wt, env=cargo_env())
+                p, f = nextest_summary(out); attempts += 1
+            res["existing_suite_with_patch"] = {"rc": rc, "passed": p, "failed": f, "attempts": attempts, "runner": "cargo nextest run --workspace (the 100 pinned tests)"}
             if rc != 0: res["existing_suite_output"] = "\n".join(l for l in out.splitlines() if "FAILED" in l or "panicked" in l)[-1500:]
             if os.path.exists(demo):
                 shutil.copy(demo, os.path.join(wt, "tests", "seed_demo.rs"))
-                rc, out = sh(["cargo", "test", "--offline", "--test", "seed_demo"], cwd=wt)
+                rc, out = sh(["cargo", "test", "--offline", "--test", "seed_demo"], cwd=wt, env=cargo_env())
                 res["demo_with_patch"] = "fail (as required)" if rc != 0 else "PASSES (change not demonstrated)"
                 os.remove(os.path.join(wt, "tests", "seed_demo.rs"))
         for c in checks:
